@@ -417,7 +417,7 @@ func (p *pr) slot() {
 			}
 		case 4:
 			if p.layout == "comment" {
-				p.raw("\n#\n  # two\n")
+				p.raw(p.pick([]string{"\n#\n  # two\n", " #\n", "#\n\n", "\t# \n"})) // incl. empty comments
 			}
 		}
 	}
@@ -433,7 +433,7 @@ func (p *pr) sep() {
 	default:
 		p.raw(p.pick([]string{"\n", ";", "; ", "\n\n", ";\n", " ;;\n ", "\n;\n"}))
 		if p.layout == "comment" && p.rng.Intn(3) == 0 {
-			p.raw("# between\n")
+			p.raw(p.pick([]string{"# between\n", "#\n", "#\n#\n"}))
 		}
 	}
 }
